@@ -622,9 +622,93 @@ def closed_by_other_thread(sx, op):
     return c15_lock.close_race_scn(sx, op)
 
 
+USB_KINDS = ["USBErrorTimeout", "USBErrorNoDevice", "USBErrorIO", "USBErrorPipe",
+             "USBErrorOverflow", "USBErrorBusy", "USBErrorInterrupted", "USBErrorOther", "USBError"]
+
+
+def usb_transport(sx, op):
+    """the real nfc.clf.transport.USB.write()/read() (what every USB driver
+    hands its frames to) on a libusb device handle that raises one libusb
+    error at one of its bulk transfers: the frame goes out (with the
+    terminating zero-length transfer where it fills the last packet) or comes
+    in, or IOError is raised - a usb1 exception (not an IOError) never
+    leaves the transport."""
+    import nfc.clf.transport as T
+    libusb = T.libusb
+    packet = sx.pick("packet", [64, 8])
+    n = sx.pick("len", [1, packet - 1, packet, packet + 1, 2 * packet, 255])
+    fault_at = sx.pick("fault_at", [0, 1, 2])
+    kind = sx.pick("kind", USB_KINDS) if fault_at else None
+
+    class EndPoint(object):
+        def __init__(self, addr):
+            self.addr = addr
+
+        def getAddress(self):
+            return self.addr
+
+        def getMaxPacketSize(self):
+            return packet
+
+    class Handle(object):
+        def __init__(self):
+            self.n = 0
+            self.out = []
+
+        def _fault(self):
+            self.n += 1
+            if self.n == fault_at:
+                sx.reach("usb:fault-at-transfer-%d" % fault_at)
+                raise getattr(libusb, kind)()
+
+        def bulkWrite(self, ep, data, timeout=0):
+            self._fault()
+            self.out.append(bytes(data))
+            return len(data)
+
+        def bulkRead(self, ep, length, timeout=0):
+            self._fault()
+            return bytes(bytearray((i * 3 + 1) & 0xFF for i in range(min(n, length))))
+
+        def close(self):
+            pass
+
+    usb = T.USB.__new__(T.USB)
+    usb.context = None           # (__del__ looks at it)
+    usb.usb_dev = Handle()
+    usb.usb_out = EndPoint(0x02)
+    usb.usb_inp = EndPoint(0x81)
+    frame = bytearray((i * 5 + 2) & 0xFF for i in range(n))
+    label = "usb-transport:%s" % op
+    try:
+        if op == "write":
+            usb.write(frame, 100)
+            sx.check(b"".join(usb.usb_dev.out) == bytes(frame), label + ":frame-not-written-intact")
+            if n % packet == 0:
+                sx.reach("usb:frame-fills-last-packet")
+            out = "written"
+        else:
+            rsp = usb.read(100)
+            sx.check(bytes(rsp) == bytes(bytearray((i * 3 + 1) & 0xFF for i in range(n))),
+                     label + ":frame-not-read-intact")
+            out = "read"
+    except IOError as error:
+        sx.check(fault_at and usb.usb_dev.n >= fault_at, label + ":IOError-without-fault")
+        sx.reach("usb:IOError")
+        out = "IOError:%s" % error.errno
+    except Exception as error:
+        sx.check(False, "%s:%s-escapes:fault-at-transfer-%d:len=%s" % (
+            label, type(error).__name__, fault_at, "packet-multiple" if n % packet == 0 else "other"))
+        out = "escaped"
+    sx.reach("usb:" + op)
+    return out
+
+
 def partitions(tier):
     q = tier == "quick"
     parts = []
+    for op in ("write", "read"):
+        parts.append(dict(name="usb-transport:" + op, fn="usb_transport", params=dict(op=op)))
     for op in ("exchange-cmd", "exchange-rsp"):
         parts.append(dict(name="closed-by-other-thread:" + op, fn="closed_by_other_thread",
                           params=dict(op=op)))
@@ -677,7 +761,7 @@ def partitions(tier):
     return parts
 
 
-MUST_REACH = ["close-race:exchange-cmd:closed-before-lock", "close-race:exchange-rsp:closed-before-lock", "out:data", "out:TimeoutError", "out:TransmissionError",
+MUST_REACH = ["usb:write", "usb:read", "usb:IOError", "usb:frame-fills-last-packet", "usb:fault-at-transfer-2", "close-race:exchange-cmd:closed-before-lock", "close-race:exchange-rsp:closed-before-lock", "out:data", "out:TimeoutError", "out:TransmissionError",
               "out:BrokenLinkError", "out:IOError", "fault:w", "fault:a",
               "fault:r", "fault:short", "fault:garble", "fault:err",
               "ioerror-shape:EIO", "ioerror-shape:ENODEV",
@@ -691,7 +775,7 @@ MUST_REACH = ["close-race:exchange-cmd:closed-before-lock", "close-race:exchange
                            'ldep-recv', 'ltt3')]
 
 BOUNDS = {
-    "quick": "pn532 and rcs380: every target kind the driver can activate (Type 2, 4A, 1 incl. the PN532 READ8 register path, Type B, Type F, DEP active/passive as initiator; listen-mode Type 2 / DEP with and without data to send / Type 3 via CIU registers) x {no fault, I/O fault, frame fault}; pn533, pn531, rcs956, acr122: Type 2 with all three fault classes plus 2-4 further kinds without fault (table QUICK); arygon A/B: Type 2 without fault and with I/O faults. Without host-link fault: the status byte of *every* host command of the exchange is symbolic over 0..255 simultaneously (PN533 ReadRegister/WriteRegister, RC-S956 WriteRegister, InCommunicateThru/InDataExchange/TgResponseToInitiator/TgGetInitiatorCommand; CIU_CommIRq/CIU_DivIRq for the Type 3 listen loop); RC-S380: 8-bit status of InSetRF/InSetProtocol, all 32 bits of the InCommRF communication status, 9 of the 12 named bits of the TgCommRF status; 3-4 symbolic payload bytes (Type 2: incl. CRC_A; also a 1-byte ACK/NAK). With a fault: exactly one fault at any host command index of the exchange out of {a transport error raised from write, from the ACK read or from the response read (each position separately) in every shape the transport can produce: IOError with errno EIO/ENODEV/ETIMEDOUT/EPIPE, IOError('text only') and IOError() (errno None), a pyserial-style SerialException(IOError) instance (errno None), response cut to 1,3,5,6,len-2,len-1 bytes, chip error frame, arbitrary bytes of the response's length}, statuses good. udp: send ok/error/partial x receive (9 datagram shapes)/socket error/silence, socket errors as OSError with errno, text only, without arguments and as a socket.timeout-style subclass, initiator and target role; in quick every driver has transport-error partitions for an initiator-side and (where the driver can listen) a target-side exchange",
+    "quick": "pn532 and rcs380: every target kind the driver can activate (Type 2, 4A, 1 incl. the PN532 READ8 register path, Type B, Type F, DEP active/passive as initiator; listen-mode Type 2 / DEP with and without data to send / Type 3 via CIU registers) x {no fault, I/O fault, frame fault}; pn533, pn531, rcs956, acr122: Type 2 with all three fault classes plus 2-4 further kinds without fault (table QUICK); arygon A/B: Type 2 without fault and with I/O faults. Without host-link fault: the status byte of *every* host command of the exchange is symbolic over 0..255 simultaneously (PN533 ReadRegister/WriteRegister, RC-S956 WriteRegister, InCommunicateThru/InDataExchange/TgResponseToInitiator/TgGetInitiatorCommand; CIU_CommIRq/CIU_DivIRq for the Type 3 listen loop); RC-S380: 8-bit status of InSetRF/InSetProtocol, all 32 bits of the InCommRF communication status, 9 of the 12 named bits of the TgCommRF status; 3-4 symbolic payload bytes (Type 2: incl. CRC_A; also a 1-byte ACK/NAK). With a fault: exactly one fault at any host command index of the exchange out of {a transport error raised from write, from the ACK read or from the response read (each position separately) in every shape the transport can produce: IOError with errno EIO/ENODEV/ETIMEDOUT/EPIPE, IOError('text only') and IOError() (errno None), a pyserial-style SerialException(IOError) instance (errno None), response cut to 1,3,5,6,len-2,len-1 bytes, chip error frame, arbitrary bytes of the response's length}, statuses good. udp: send ok/error/partial x receive (9 datagram shapes)/socket error/silence, socket errors as OSError with errno, text only, without arguments and as a socket.timeout-style subclass, initiator and target role; in quick every driver has transport-error partitions for an initiator-side and (where the driver can listen) a target-side exchange; nfc.clf.transport.USB.write()/read() with frame lengths {1, p-1, p, p+1, 2p, 255} for packet sizes p in {64, 8}, one of nine usb1 error classes at the first or second bulk transfer",
     "thorough": "all eight driver classes x all kinds they support x all three fault classes, Type 1 RSEG (16 chip commands), PN533 READ8 path (a status byte on each of ~20 register commands), all 12 named TgCommRF status bits; pn532/pn533/rcs956/rcs380 Type 2, Type F and DEP-target exchanges also with 0 and 7 payload bytes and time-outs 0.5 ms, 5 s (RC-S380: 0)",
 }
 OUTSIDE = [
@@ -700,7 +784,7 @@ OUTSIDE = [
     "Type 1 READ8 path: FIFO contents concrete and no arbitrary-bytes fault (the driver turns the bytes into text with str.format)",
     "RC-S380 target mode: TgCommRF status bits outside the 12 the driver names; the arbitrary-bytes fault covers the 10 bytes before the status only (the driver formats the status through a dict lookup, which enumerates it)",
     "activation (sense_*/listen_*): the activated target objects are constructed directly as the drivers return them",
-    "module-level init(transport) probing, nfc.clf.transport (libusb/pyserial)",
+    "module-level init(transport) probing, nfc.clf.transport other than USB.read()/USB.write() (device discovery and opening, the pyserial side)",
     "exchange time-outs other than 0.1 s (0.03 s for the Type 3 listen loop; thorough: also 0.5 ms, 5 s and, RC-S380, 0)",
     "udp: real sockets; datagram contents other than the listed shapes",
 ]
